@@ -753,6 +753,10 @@ func ParseVarDeclareStmt(p *ParserZH) *syntax.VarDeclareStmt {
 			}
 			vNode.AssignPair = append(vNode.AssignPair, assignPair)
 		})
+		// 令： must declare at least one group of variables
+		if len(vNode.AssignPair) == 0 {
+			panic(p.getInvalidSyntaxPeek())
+		}
 	} else {
 		// #02. consume identifier declare list (comma list) inline
 		// there is ONLY ONE vdAssignPair along the statement!
@@ -858,6 +862,11 @@ func ParseBlockStmt(p *ParserZH, blockIndent int) *syntax.StmtBlock {
 		stmt := ParseStatement(p)
 		bStmt.Children = append(bStmt.Children, stmt)
 	})
+
+	// a block must hold at least one statement (e.g. input ends right after the header)
+	if len(bStmt.Children) == 0 {
+		panic(p.getInvalidSyntaxPeek())
+	}
 
 	return bStmt
 }
@@ -968,6 +977,10 @@ func ParseBranchStmt(p *ParserZH) *syntax.BranchStmt {
 			// only one else-branch is accepted
 			return stmt
 		}
+	}
+	// 如果 without its condition and block (input ended right after the keyword)
+	if stmt.IfTrueExpr == nil || stmt.IfTrueBlock == nil {
+		panic(p.getInvalidSyntaxPeek())
 	}
 	return stmt
 }
